@@ -196,6 +196,15 @@ class TypeScriptMagicNumberAnalyzer(TypeScriptBaseAnalyzer):  # thailint: ignore
         Returns:
             Identifier node or None
         """
+        # The name being defined: an UPPER_CASE name used inside the value does not make a constant definition
+        if node.type == "variable_declarator":
+            name = node.child_by_field_name("name")
+            return name if name is not None and name.type == "identifier" else None
+        if node.type == "pair":
+            key = node.child_by_field_name("key")
+            is_name = key is not None and key.type in ("identifier", "property_identifier")
+            return key if is_name else None
+
         # Walk children looking for identifier
         for child in node.children:
             if child.type in ("identifier", "property_identifier"):
